@@ -153,6 +153,9 @@ class Clock:
 
     def __init__(self) -> None:
         self.start_time: Optional[float] = None
+        # instructions executed by all of them together: the time limit is polled every
+        # 1000th, however the work is spread over nested interpreters (eval, Function)
+        self.instructions = 0
 
 
 class VM:
@@ -176,7 +179,6 @@ class VM:
         self.globals: Dict[str, JSValue] = {}
 
         self.clock = Clock()
-        self.instruction_count = 0
 
         # Exception handling
         self.exception: Optional[JSValue] = None
@@ -195,6 +197,15 @@ class VM:
     @start_time.setter
     def start_time(self, value: Optional[float]) -> None:
         self.clock.start_time = value
+
+    @property
+    def instruction_count(self) -> int:
+        """Instructions executed so far for this context (see Clock)."""
+        return self.clock.instructions
+
+    @instruction_count.setter
+    def instruction_count(self, value: int) -> None:
+        self.clock.instructions = value
 
     def run(self, compiled: CompiledFunction) -> JSValue:
         """Run compiled bytecode and return result."""
